@@ -22,7 +22,7 @@ from ..hub import ev_send
 
 T1, T2 = 1001, 1002
 ALL = P.ALL_MESSAGE_TYPES
-IDS = {"M": 90, "S": 31, "P": 21, "D": 41, "E": 42}
+IDS = {"M": 90, "S": 31, "P": 21, "D": 41, "E": 42, "G": 61}
 NAMES = {"S": b"ess", "D": b"dee", "E": b"eee"}
 POSITIONS = ("accepted", "connected", "subscribed", "suball", "paused", "logger")
 
@@ -43,7 +43,9 @@ def setup_events(tc) -> List[List]:
         ev.append(ev_send("M", fr(tc, P.MT_SUBSCRIBE, P.p_sub(t), src_mod_id=IDS["M"])))
     ev += [["settle"], ["conn", "S"], ev_send("S", v2(tc, "S") + fr(tc, P.MT_CONNECT, P.p_connect(), src_mod_id=IDS["S"])),
            ["settle"], ev_send("S", fr(tc, P.MT_SUBSCRIBE, P.p_sub(T1), src_mod_id=IDS["S"])), ["settle"],
-           ["conn", "P"], ev_send("P", fr(tc, P.MT_CONNECT, P.p_connect(), src_mod_id=IDS["P"])), ["settle"]]
+           ["conn", "P"], ev_send("P", fr(tc, P.MT_CONNECT, P.p_connect(), src_mod_id=IDS["P"])), ["settle"],
+           # a logger that stays: it is owed a copy of every acknowledgement, also of the one during whose write a leaver is found dead
+           ["conn", "G"], ev_send("G", fr(tc, P.MT_CONNECT, P.p_connect(1, 0), src_mod_id=IDS["G"])), ["settle"]]
     return ev
 
 
@@ -208,8 +210,8 @@ def execute(args) -> Dict[str, Any]:
     sc, order = args
     tc = sc["tc"]
     mmx.fresh_gc()
-    slots = ["M", "S", "P", "D", "E"]
-    hv = [1, 2, 3, 4, 5]
+    slots = ["M", "S", "P", "D", "E", "G"]
+    hv = [1, 2, 3, 4, 5, 6]
     if sc["flip"]:
         hv.reverse()
     env = lock.Env(timecode=tc, fin_grace=sc["grace"], hids=dict(zip(slots, hv)))
@@ -270,7 +272,7 @@ def execute(args) -> Dict[str, Any]:
 
 
 def _own(probs):
-    return any(p["prop"] in ("C07", "C03", "C01") for p in probs)
+    return any(p["prop"] in ("C07", "C03", "C01") or (p["prop"] == "C19" and p.get("slot") in ("G", "S", "P", "M")) for p in probs)
 
 
 def dynamic_churn(args) -> Dict[str, Any]:
@@ -340,7 +342,7 @@ def async_case(args) -> Dict[str, Any]:
         E = join("E", 5, 42, b"eee", subs=(P.MT_CLIENT_INFO,))
         M.drain()
         S.drain()
-        w.kill_plan = (w.mgr_sends + k, [D], how)
+        w.kill_plan = (k, [D], how)  # k counts the manager's send calls of the coming round
         if trig == "tick":
             w.tick(5.2)
             w.step()
@@ -453,11 +455,14 @@ def run(tier: str) -> int:
                 for p in r["problems"]:
                     # "delivery among the remaining clients is unaffected" is part of this statement: data-frame problems at
                     # survivors count here too; notices / acknowledgements belong to C14 / C19
-                    if p["prop"] not in ("C07", "C03", "C01"):
+                    leavers = {l[0] for l in sc["leavers"]}
+                    if p["prop"] == "C19" and p.get("slot") in ("G", "S", "P", "M") and p.get("slot") not in leavers:
+                        pass  # an acknowledgement (copy) owed to a client that stays: "delivery among the remaining clients"
+                    elif p["prop"] not in ("C07", "C03", "C01"):
                         chk.count(f"other_property_{p['prop']}_{p['kind']}")
                         continue
                     fk = p.get("frame", [""])[0] if isinstance(p.get("frame"), list) else ""
-                    chk.violation(f"{p['prop']}:{p['kind']}:{fk}", f"{sc['label']} order={r['order']}: {p}",
+                    chk.violation(f"{'C07' if p['prop'] == 'C19' else p['prop']}:{p['kind']}:{fk}", f"{sc['label']} order={r['order']}: {p}",
                                   {"module": "vf.checks.c07", "scenario": sc, "order": r["order"]},
                                   size=len(sc["pre"]) + len(sc["leave"]) * 3 + (50 if len(sc["leavers"]) > 1 else 0))
     for a, r in zip(churn_args, churn):
